@@ -83,6 +83,7 @@ def gen_cases(ctx):
         out.append({"k": "roms", "adv": adv, "field": "linear-t"})
         out.append({"k": "roms", "adv": adv, "field": "linear-t-v"})  # only v changes between the frames, u is steady
         out.append({"k": "roms", "adv": adv, "field": "linear-t-multi"})  # several steps between two frames
+        out.append({"k": "roms", "adv": adv, "field": "linear-t-late"})  # unevenly spaced frames, start after the third
     if not ctx.quick:
         for adv in ("EF", "RK2", "RK4"):
             out.append({"k": "order", "adv": adv})
@@ -184,7 +185,7 @@ def eval_roms(desc, ctx):
     d = ctx.subdir("c01roms_" + desc["adv"] + desc["field"])
     imax, jmax, N = 14, 8, 2
     dx, dt = 1000.0, 600.0
-    v, expect_y, nsteps = None, 4.0, 1
+    v, expect_y, nsteps, start = None, 4.0, 1, 0
     xu = np.arange(imax - 1) + 0.5
     if desc["field"] == "linear-x":
         c = 0.2 * dx / dt
@@ -205,14 +206,24 @@ def eval_roms(desc, ctx):
         nsteps = 3
         per = {"EF": [k / 4 for k in range(nsteps)], "RK2": [(k + 0.5) / 4 for k in range(nsteps)], "RK4": [(k + 0.5) / 4 for k in range(nsteps)]}[desc["adv"]]
         expect = 7.0 + 0.5 * sum(per)
+    elif desc["field"] == "linear-t-late":
+        # frames at steps 0, 1, 3, 6, 12 (unevenly spaced) sample u(t) = c * t / 7200 s; the run starts at step 4, after the
+        # third frame, and takes four steps across the frame of step 6: the interpolated field is the same linear
+        # function of time throughout
+        c = 0.5 * dx / dt
+        times = [0, 600, 1800, 3600, 7200]
+        u = np.stack([np.full((N, jmax, imax - 1), c * t / 7200.0) for t in times])
+        nsteps, start = 4, 2400
+        off = {"EF": 0.0, "RK2": 0.5, "RK4": 0.5}[desc["adv"]]
+        expect = 7.0 + sum(c * (start + (k + off) * dt) / 7200.0 * dt / dx for k in range(nsteps))
     else:  # steady u (the same in both frames), v grows linearly in time
         c = 0.5 * dx / dt
         u = np.full((2, N, jmax, imax - 1), 0.25 * dx / dt); times = [0, 600]
         v = np.stack([np.zeros((N, jmax - 1, imax)), np.full((N, jmax - 1, imax), c)])
         expect, expect_y = 7.25, 4.0 + {"EF": 0.0, "RK2": 0.25, "RK4": 0.25}[desc["adv"]]
     rf.write_roms(d / "f.nc", imax=imax, jmax=jmax, N=N, times=times, u=u, v=v, dx=dx)
-    rf.write_release(d / "r.rls", [[0, 7.0, 4.0, 5.0]])
-    conf = rf.base_config(start=0, stop=int(dt) * nsteps, dt=int(dt), forcing_file=d / "f.nc", release_file=d / "r.rls", out_file=d / "o.nc", advection=desc["adv"])
+    rf.write_release(d / "r.rls", [[start, 7.0, 4.0, 5.0]])
+    conf = rf.base_config(start=start, stop=start + int(dt) * nsteps, dt=int(dt), forcing_file=d / "f.nc", release_file=d / "r.rls", out_file=d / "o.nc", advection=desc["adv"])
     # one step: read the state directly
     m = rl.run_conf(conf)
     X, Y = float(m.state.X[0]), float(m.state.Y[0])
